@@ -169,7 +169,19 @@ def run_suites(spec, tier, seed, log):
         mod = importlib.import_module(f'harness.suites.{name}')
         t0 = time.time()
         fn = getattr(mod, spec.get('entry', {}).get(name, 'run'))
-        res = fn(tier, seed)
+        try:
+            res = fn(tier, seed)
+        except subprocess.TimeoutExpired:
+            raise
+        except Exception:
+            # the suite could not be driven against the current source (an interface it calls
+            # changed shape, or the real code raised where the harness does not expect it): the
+            # correspondence no longer checks.  Not a harness error: the other suites still run and
+            # the verdict is a violation (with a failing input if one of them finds it).
+            res = common.SuiteResult(name)
+            res.disagreements.append({'suite': name, 'where': 'suite could not be run against the current source',
+                                      'traceback': traceback.format_exc()[-3000:]})
+            log(f'suite {name}: raised; counted as a broken correspondence')
         log(f'suite {name}: {res.evaluations} evaluations, {len(res.nontrivial)} distinct non-trivial, '
             f'{len(res.disagreements)} disagreements, {len(res.violations)} direct violations '
             f'({time.time() - t0:.1f}s)')
